@@ -30,18 +30,12 @@ def _events(run):
     return [ev for _, ev in run["events"]]
 
 
-def trig_mutate_dataless_neutron_record(run, ctx):
-    """A mutation aimed at the record served for an atom that has no neutron data."""
-    return any(ev[0] == "mutate" and ev[3] == "neutron_field_dataless" for ev in _events(run))
-
-
 def trig_fasta_formula_with_table(run, ctx):
     return any(ev[0] == "formula" and isinstance(ev[2], str) and ev[2].split(":")[0] in ("aa", "dna", "rna")
                and ev[1] != "public" for ev in _events(run))
 
 
 TRIGGERS = {
-    "mutate_dataless_neutron_record": trig_mutate_dataless_neutron_record,
     "fasta_formula_with_table": trig_fasta_formula_with_table,
 }
 
